@@ -60,12 +60,20 @@ ValidFiles ==
 
 (* ---- rule violations ---- *)
 BlockDevs == {"hsz+4", "hsz-4", "resv", "nofit", "cs_zero", "cs+1", "cs-1", "cs_vli", "us+1", "us-1", "us_vli",
+              "cs_over9", "us_over9", "fid_vli", "fid_over9", "fps_vli", "fps_over9", "flast_id_vli", "flast_ps_vli",
+              "cs_p32", "cs_p31", "cs_p62", "us_p32", "us_p31", "us_p33", "us_p62",
               "f_unknown", "f_reserved", "f_lzma2_plen", "f_lzma2_pbad", "f_nonlast_plen", "f_bcj_align",
               "f_lzma2_first", "f_last_nonlzma2", "hpadnz", "hcrc", "bpadnz", "chk"}
 StreamDevs == {"hmagic", "hcrc", "hvers", "icount+1", "icount-1", "irec_u+1", "irec_u+4", "irec_n+1", "irec_u_small",
                "irec_swap", "irec_cancel", "ivli", "ipadnz", "icrc", "fmagic", "fcrc", "fvers", "fbs+4", "fbs-4", "fcheck",
-               "pad+1", "pad+2", "pad+3"}
+               "pad+1", "pad+2", "pad+3",
+               "icount_p32", "irec_u_p32", "irec_u_p62", "irec_n_p32", "irec_n_p31", "irec_n_p33", "fbs_k1", "fbs_k2", "fbs_k3"}
 OtherCheck(c) == IF c = 1 THEN 4 ELSE 1
+BigTag(dv) == CASE dv \in {"cs_p31", "us_p31", "irec_n_p31"} -> "p31"
+                [] dv \in {"cs_p62", "us_p62", "irec_u_p62"} -> "p62"
+                [] dv \in {"us_p33", "irec_n_p33"} -> "p33"
+                [] dv = "fbs_k1" -> "k1" [] dv = "fbs_k2" -> "k2" [] dv = "fbs_k3" -> "k3"
+                [] OTHER -> "p32"
 SetFilter(T, k, f) == [T EXCEPT !.filters[k] = f]
 (* applying a violation keeps every OTHER field as it was written (sizes stored elsewhere are not adjusted), *)
 (* except where noted: a changed header length moves hpad so that the header stays a multiple of four       *)
@@ -73,8 +81,8 @@ Refit(T) == LET t1 == [T EXCEPT !.hpad = Pad4(HdrBody(T)) + (IF T.hpad >= 4 + Pa
             IN [t1 EXCEPT !.hsz = HdrReal(t1)]
 BlockDevOk(T, check, dv) ==
     CASE dv = "hsz-4" -> T.hsz > 8
-      [] dv \in {"cs+1", "cs-1", "cs_zero", "cs_vli"} -> T.cs.p
-      [] dv \in {"us+1", "us_vli"} -> T.us.p
+      [] dv \in {"cs+1", "cs-1", "cs_zero", "cs_vli", "cs_over9", "cs_p32", "cs_p31", "cs_p62"} -> T.cs.p
+      [] dv \in {"us+1", "us_vli", "us_over9", "us_p32", "us_p31", "us_p33", "us_p62"} -> T.us.p
       [] dv = "us-1" -> T.us.p /\ T.us.v > 0
       [] dv \in {"f_nonlast_plen", "f_lzma2_first"} -> Len(T.filters) >= 2
       [] dv = "f_bcj_align" -> \E k \in 1..Len(T.filters) : T.filters[k].id \in {"arm64", "arm", "powerpc", "sparc"} /\ T.filters[k].plen = 4
@@ -91,15 +99,26 @@ BlockDev(T, dv) ==
       [] dv = "cs_zero" -> [T EXCEPT !.cs.v = 0]
       [] dv = "cs+1" -> [T EXCEPT !.cs.v = T.cs.v + 1]
       [] dv = "cs-1" -> [T EXCEPT !.cs.v = T.cs.v - 1]
-      [] dv = "cs_vli" -> Refit([T EXCEPT !.cs.vli = FALSE])
+      [] dv = "cs_vli" -> Refit([T EXCEPT !.cs.vli = FALSE, !.cs.vc = "nonmin"])        \* the TRUE value, encoded one byte longer
+      [] dv = "cs_over9" -> Refit([T EXCEPT !.cs.vli = FALSE, !.cs.vc = "over9"])
+      [] dv = "us_over9" -> Refit([T EXCEPT !.us.vli = FALSE, !.us.vc = "over9"])
+      [] dv = "fid_vli" -> Refit([T EXCEPT !.filters[1].idv = "nonmin"])
+      [] dv = "fid_over9" -> Refit([T EXCEPT !.filters[1].idv = "over9"])
+      [] dv = "fps_vli" -> Refit([T EXCEPT !.filters[1].psv = "nonmin"])
+      [] dv = "fps_over9" -> Refit([T EXCEPT !.filters[1].psv = "over9"])
+      [] dv = "flast_id_vli" -> Refit([T EXCEPT !.filters[Len(T.filters)].idv = "nonmin"])
+      [] dv = "flast_ps_vli" -> Refit([T EXCEPT !.filters[Len(T.filters)].psv = "nonmin"])
+      \* stored sizes that exceed the true ones by a power of two (wrap-around classes), everything else consistent
+      [] dv \in {"cs_p32", "cs_p31", "cs_p62"} -> Refit([T EXCEPT !.cs.v = T.cs.v + BigStandIn, !.cs.big = BigTag(dv)])
+      [] dv \in {"us_p32", "us_p31", "us_p33", "us_p62"} -> Refit([T EXCEPT !.us.v = T.us.v + BigStandIn, !.us.big = BigTag(dv)])
       [] dv = "us+1" -> [T EXCEPT !.us.v = T.us.v + 1]
       [] dv = "us-1" -> [T EXCEPT !.us.v = T.us.v - 1]
-      [] dv = "us_vli" -> Refit([T EXCEPT !.us.vli = FALSE])
-      [] dv = "f_unknown" -> Refit(SetFilter(T, 1, [id |-> "unknown", plen |-> T.filters[1].plen, pok |-> TRUE]))
-      [] dv = "f_reserved" -> Refit(SetFilter(T, 1, [id |-> "reserved", plen |-> T.filters[1].plen, pok |-> TRUE]))
-      [] dv = "f_lzma2_plen" -> Refit(SetFilter(T, Len(T.filters), [id |-> "lzma2", plen |-> 2, pok |-> TRUE]))
-      [] dv = "f_lzma2_pbad" -> Refit(SetFilter(T, Len(T.filters), [id |-> "lzma2", plen |-> 1, pok |-> FALSE]))
-      [] dv = "f_nonlast_plen" -> Refit(SetFilter(T, 1, [id |-> T.filters[1].id, plen |-> 2, pok |-> TRUE]))
+      [] dv = "us_vli" -> Refit([T EXCEPT !.us.vli = FALSE, !.us.vc = "nonmin"])
+      [] dv = "f_unknown" -> Refit(SetFilter(T, 1, FX("unknown", T.filters[1].plen, TRUE)))
+      [] dv = "f_reserved" -> Refit(SetFilter(T, 1, FX("reserved", T.filters[1].plen, TRUE)))
+      [] dv = "f_lzma2_plen" -> Refit(SetFilter(T, Len(T.filters), FX("lzma2", 2, TRUE)))
+      [] dv = "f_lzma2_pbad" -> Refit(SetFilter(T, Len(T.filters), FX("lzma2", 1, FALSE)))
+      [] dv = "f_nonlast_plen" -> Refit(SetFilter(T, 1, FX(T.filters[1].id, 2, TRUE)))
       [] dv = "f_bcj_align" -> LET k == CHOOSE k \in 1..Len(T.filters) : T.filters[k].id \in {"arm64", "arm", "powerpc", "sparc"} /\ T.filters[k].plen = 4
                                IN SetFilter(T, k, [T.filters[k] EXCEPT !.pok = FALSE])
       [] dv = "f_lzma2_first" -> Refit(SetFilter(T, 1, F("lzma2", 1)))
@@ -111,16 +130,19 @@ BlockDev(T, dv) ==
 (* other Compressed Data in the place of the old one; the sizes stored in the header and the Index are adjusted *)
 DataDev(T, d) == MkBlock(d, CatChunks(d), T.cs.p, T.us.p, T.filters, IF T.hpad >= 4 THEN 4 ELSE 0)
 StreamDevOk(T, last, dv) ==
-    CASE dv \in {"icount-1", "irec_u+1", "irec_u+4", "irec_n+1", "irec_u_small"} -> Len(T.irecs) >= 1
+    CASE dv \in {"icount-1", "irec_u+1", "irec_u+4", "irec_n+1", "irec_u_small", "irec_u_p32", "irec_u_p62", "irec_n_p32", "irec_n_p31", "irec_n_p33"} -> Len(T.irecs) >= 1
       [] dv = "irec_swap" -> Len(T.irecs) >= 2 /\ T.irecs[1] # T.irecs[2]
       [] dv = "irec_cancel" -> Len(T.irecs) >= 2
-      [] dv = "ipadnz" -> Pad4(IndexBody(T)) > 0
+      [] dv = "ipadnz" -> IndexPad(T) > 0
       [] OTHER -> TRUE
+Reindex(T) == [T EXCEPT !.fbs = IndexRealMin(T)]
+(* VLI number `pos` of the Index (1 = Number of Records, 2k / 2k+1 = the two sizes of Record k) malformed, TRUE value kept *)
+IvDev(T, pos, cls) == Reindex([T EXCEPT !.ivli = FALSE, !.ivpos = pos, !.ivcls = cls])
 StreamDev(T, dv) ==
     CASE dv = "hmagic" -> [T EXCEPT !.hmagic = FALSE]
       [] dv = "hcrc" -> [T EXCEPT !.hcrc = FALSE]
       [] dv = "hvers" -> [T EXCEPT !.hvers = FALSE]
-      [] dv = "icount+1" -> [T EXCEPT !.icount = T.icount + 1, !.irecs = Append(T.irecs, [u |-> 24, n |-> 0])]
+      [] dv = "icount+1" -> [T EXCEPT !.icount = T.icount + 1, !.irecs = Append(T.irecs, Rec(24, 0))]
       [] dv = "icount-1" -> [T EXCEPT !.icount = T.icount - 1, !.irecs = SubSeq(T.irecs, 1, Len(T.irecs) - 1)]
       [] dv = "irec_u+1" -> [T EXCEPT !.irecs[1].u = T.irecs[1].u + 1]
       [] dv = "irec_u+4" -> [T EXCEPT !.irecs[1].u = T.irecs[1].u + 4]
@@ -129,7 +151,14 @@ StreamDev(T, dv) ==
       [] dv = "irec_swap" -> [T EXCEPT !.irecs[1] = T.irecs[2], !.irecs[2] = T.irecs[1]]
       [] dv = "irec_cancel" -> [T EXCEPT !.irecs[1].u = T.irecs[1].u + 4, !.irecs[2].u = T.irecs[2].u - 4,
                                          !.irecs[1].n = T.irecs[1].n + 1, !.irecs[2].n = T.irecs[2].n - 1]
-      [] dv = "ivli" -> [T EXCEPT !.ivli = FALSE, !.fbs = IndexReal([T EXCEPT !.ivli = FALSE])]
+      [] dv = "ivli" -> IvDev(T, 1, "nonmin")
+      \* stored values that exceed the true ones by a power of two; the Index (padding, CRC32, Backward Size) is consistent with them
+      [] dv = "icount_p32" -> Reindex([T EXCEPT !.icount = T.icount + BigStandIn, !.icb = "p32"])
+      [] dv \in {"irec_u_p32", "irec_u_p62"} -> Reindex([T EXCEPT !.irecs[1].u = T.irecs[1].u + BigStandIn, !.irecs[1].ub = BigTag(dv)])
+      [] dv \in {"irec_n_p32", "irec_n_p31", "irec_n_p33"} ->
+             Reindex([T EXCEPT !.irecs[Len(T.irecs)].n = T.irecs[Len(T.irecs)].n + BigStandIn, !.irecs[Len(T.irecs)].nb = BigTag(dv)])
+      \* Backward Size field (32 bits, real = (stored + 1) * 4): stored + k * 2^30, footer CRC32 valid
+      [] dv \in {"fbs_k1", "fbs_k2", "fbs_k3"} -> [T EXCEPT !.fbs = T.fbs + BigStandIn, !.fbb = BigTag(dv)]
       [] dv = "ipadnz" -> [T EXCEPT !.ipadz = FALSE]
       [] dv = "icrc" -> [T EXCEPT !.icrc = FALSE]
       [] dv = "fmagic" -> [T EXCEPT !.fmagic = FALSE]
@@ -152,6 +181,8 @@ Dev1(f) ==
     \cup {[f EXCEPT !.streams[s] = MkStream(f.streams[s].check,
                                                [f.streams[s].blocks EXCEPT ![b] = DataDev(f.streams[s].blocks[b], d)], f.streams[s].pad)] :
         <<s, b, d>> \in {t \in (1..Len(f.streams)) \X (1..2) \X BadData : t[2] <= Len(f.streams[t[1]].blocks)}}
+    \cup {[f EXCEPT !.streams[s] = IvDev(f.streams[s], pos, cls)] :
+        <<s, pos, cls>> \in {t \in (1..Len(f.streams)) \X (1..5) \X {"nonmin", "over9"} : t[2] <= 1 + 2 * Len(f.streams[t[1]].irecs)}}
     \cup {[f EXCEPT !.streams[s] = StreamDev(f.streams[s], dv)] :
         <<s, dv>> \in {t \in (1..Len(f.streams)) \X StreamDevs :
                              /\ StreamDevOk(f.streams[t[1]], t[1] = Len(f.streams), t[2])
